@@ -23,7 +23,7 @@ class SchemaError(Exception):
         self.args = args
 
     def __str__(self):
-        print(self.args)
+        return str(self.args)
 
 
 def load(cls: Schema, data, **kwargs):
